@@ -12,6 +12,7 @@ import (
 	"io"
 	"os"
 	"os/exec"
+	"path/filepath"
 	"strings"
 	"sync"
 	"time"
@@ -163,9 +164,23 @@ func (d *drvClient) call(req *drvRequest) (resp drvResponse, died bool, diag str
 		select {
 		case <-done:
 		case <-time.After(180 * time.Second):
+			// a worker blocked for good leaves a process whose threads all sleep; a process that is merely starved of
+			// processor time on a busy machine has runnable threads: that one is given more time (15 minutes at most)
+			for waited := 180 * time.Second; waited < 15*time.Minute && procRunnable(d.cmd.Process.Pid); waited += 30 * time.Second {
+				select {
+				case <-done:
+					return
+				case <-time.After(30 * time.Second):
+				}
+			}
+			select {
+			case <-done:
+				return
+			default:
+			}
 			d.hung = true
 			d.logMu.Lock()
-			d.log.WriteString("\nHARNESS WATCHDOG: the driver did not answer the request within 180 s (workers of the phase never finished); killed\n")
+			d.log.WriteString("\nHARNESS WATCHDOG: the driver did not answer the request within 180 s and all its threads sleep (workers of the phase never finished); killed\n")
 			d.logMu.Unlock()
 			d.cmd.Process.Kill()
 		}
@@ -193,6 +208,26 @@ func (d *drvClient) call(req *drvRequest) (resp drvResponse, died bool, diag str
 			return resp, true, d.diag()
 		}
 	}
+}
+
+// procRunnable samples the states of the process's threads for two seconds: true when some thread was running,
+// runnable or in uninterruptible sleep in any sample.
+func procRunnable(pid int) bool {
+	for i := 0; i < 20; i++ {
+		tasks, _ := filepath.Glob(fmt.Sprintf("/proc/%d/task/*/stat", pid))
+		for _, f := range tasks {
+			b, err := os.ReadFile(f)
+			if err != nil {
+				continue
+			}
+			// pid (comm) state ...: the state letter follows the last ')'
+			if k := bytes.LastIndexByte(b, ')'); k >= 0 && k+2 < len(b) && (b[k+2] == 'R' || b[k+2] == 'D') {
+				return true
+			}
+		}
+		time.Sleep(100 * time.Millisecond)
+	}
+	return false
 }
 
 func (d *drvClient) stop() {
